@@ -350,7 +350,13 @@ pub fn draw_history(rng: &mut ChaCha8Rng, p: &Profile, max_ops: usize) -> Scenar
                 history.push(HOp::SetRange(a, b));
             }
             _ => {
-                let what = rng.random_range(0..4);
+                let what = rng.random_range(0..5);
+                if what == 4 && !p.defaults_only {
+                    // the protocol of the used generator is changed through `state.version`
+                    let allowed: Vec<u8> = p.protocols.clone().unwrap_or_else(|| (0..6).collect());
+                    history.push(HOp::SetProtocol(allowed[rng.random_range(0..allowed.len())]));
+                    continue;
+                }
                 if what == 2 && !p.defaults_only {
                     // an interlude in the other mode on the same generator: switch, one or two
                     // calls, switch back (calls are judged under the mode in force for them)
